@@ -110,8 +110,16 @@ def _match_perm(pts, ys, xs):
 
 
 @contextlib.contextmanager
-def recording():
-    """Install the wrappers, yield a Trace, restore everything."""
+def recording(fuzz=None):
+    """Install the wrappers, yield a Trace, restore everything.
+
+    `fuzz` (a seed, or None): the model's theorems are quantified over *every* answer of the right shape the
+    third-party kernels could give, not only over what scikit-learn happens to return on the generated scenes.  With a
+    seed, the Gaussian-mixture wrapper deterministically distorts the real answers within that shape (labels < n with
+    a component left unpopulated or components renumbered, scores rescaled): the package's bookkeeping around the
+    mixture (empty-component penalty, model selection, re-merge, id generation) is then exercised - and compared with
+    the model, which replays the recorded (distorted) answers - in regimes the real library produces once in a
+    thousand scenes."""
     import ampycloud
     from ampycloud import cluster, fluffer, layer
     from ampycloud.utils import utils
@@ -183,10 +191,12 @@ def recording():
     cur = {'rec': None}
 
     class GM:
-        def __init__(self, n, **kwargs):
+        def __init__(self, *args, **kwargs):
+            # however the number of components is passed (positionally or as n_components=)
+            n = args[0] if args else kwargs.get('n_components', 1)
             self._n = int(n)
-            self._kw = dict(kwargs)
-            self._m = orig_gm(n, **kwargs)
+            self._kw = {k: v for k, v in kwargs.items() if k != 'n_components'}
+            self._m = orig_gm(*args, **kwargs)
 
         def fit(self, vals):
             self._m.fit(vals)
@@ -194,20 +204,41 @@ def recording():
                 cur['rec']['fits'].setdefault(self._n, {'kwargs': self._kw, 'vals': np.array(vals, dtype=float).ravel().copy()})
             return self
 
+        def _fz(self, vals, what):
+            import hashlib
+            import random as _r
+            h = hashlib.sha1(np.array(vals, dtype=float).tobytes() + f'{fuzz}:{self._n}:{what}'.encode()).hexdigest()
+            return _r.Random(h)
+
         def predict(self, vals):
             out = self._m.predict(vals)
+            if fuzz is not None and self._n >= 2:
+                r = self._fz(vals, 'labels')
+                mode = r.choice(['empty', 'empty', 'renumber', 'asis'])
+                out = np.array(out).copy()
+                if mode == 'empty':
+                    j = r.randrange(self._n)
+                    out[out == j] = (j + 1) % self._n            # component j left unpopulated
+                elif mode == 'renumber':
+                    perm = list(range(self._n)); r.shuffle(perm)
+                    out = np.array([perm[int(v)] for v in out], dtype=out.dtype)
             if cur['rec'] is not None:
                 cur['rec']['fits'].setdefault(self._n, {})['labels'] = np.array(out).copy()
             return out
 
+        def _score(self, vals, out):
+            if fuzz is not None:
+                out = float(out) * self._fz(vals, 'score').choice([1.0, 1.0, 0.5, 1.5, 0.9, -1.0])
+            return out
+
         def bic(self, vals):
-            out = self._m.bic(vals)
+            out = self._score(vals, self._m.bic(vals))
             if cur['rec'] is not None:
                 cur['rec']['fits'].setdefault(self._n, {})['score'] = float(out)
             return out
 
         def aic(self, vals):
-            out = self._m.aic(vals)
+            out = self._score(vals, self._m.aic(vals))
             if cur['rec'] is not None:
                 cur['rec']['fits'].setdefault(self._n, {})['score'] = float(out)
             return out
